@@ -247,6 +247,17 @@ pub fn eval_config(base: &Path, c: &Cfg, order: &[Doc]) -> (u64, Vec<(String, St
             Ok(Ok(v)) if !v.is_null() => {}
             other => out.push(("free-standing-no-answer".into(), "Loose|hover".into(), format!("free-standing file: hover on its own function gives {other:?}"))),
         }
+        // only packages under build/packages are external: a free-standing file is editable
+        n += 1;
+        match srv.request("textDocument/prepareRename", json!({"textDocument": {"uri": uri}, "position": {"line": p.0, "character": p.1}})) {
+            Ok(Ok(v)) if !v.is_null() => {}
+            other => out.push(("local-not-editable".into(), "Loose|prepareRename".into(), format!("free-standing file: prepareRename on its own function is refused ({other:?}); only packages under build/packages are external")))
+        }
+        n += 1;
+        match srv.request("textDocument/rename", json!({"textDocument": {"uri": uri}, "position": {"line": p.0, "character": p.1}, "newName": "renamed"})) {
+            Ok(Ok(v)) if !v.is_null() => {}
+            other => out.push(("local-not-editable".into(), "Loose|rename".into(), format!("free-standing file: rename of its own function is refused ({other:?})")))
+        }
     }
     (n, out)
 }
